@@ -197,17 +197,13 @@ def rule_fold(ctx):
                               'the sparse accumulation differs between squash_time settings')
     ctx.passed('C11.R3', fi, 'energy mode squares the amplitude exactly once; amplitude mode not at all',
                'checked on every class pair') if coos else None
-    # dimension checks
-    calls = []
-    for cnode in P.calls_in(fi):
-        ca = P.resolve_callee(fi.module, fi, cnode.func)
-        if ca.dotted in ('emd.support.ensure_2d', 'emd.support.ensure_equal_dims'):
-            names = sorted({n.id for n in ast.walk(cnode.args[0]) if isinstance(n, ast.Name)}) if cnode.args else []
-            dim = [k.value.value for k in cnode.keywords if k.arg == 'dim' and isinstance(k.value, ast.Constant)]
-            calls.append((ca.dotted.split('.')[-1], names, dim))
+    # dimension checks (read from the evaluated paths: loops over literal tuples are unrolled, helpers inlined)
+    from .common import dim_checks
+    per_path = dim_checks(P, fi, {'mode': 'energy', 'squash_time': 'sum'})
     for fn, dim in (('ensure_2d', None), ('ensure_equal_dims', 0), ('ensure_equal_dims', 1)):
         cc = '%s%s is applied to the three input arrays' % (fn, '' if dim is None else '(dim=%d)' % dim)
-        ok = any(f == fn and set(nm) >= {'infr', 'infr2', 'inam2'} and (dim is None or d == [dim]) for f, nm, d in calls)
+        ok = bool(per_path) and all(any(f == fn and nm >= {'infr', 'infr2', 'inam2'} and (dim is None or d == dim)
+                                        for f, nm, d in calls) for calls in per_path)
         if ok:
             ctx.passed('C11.R3', fi, cc)
         else:
